@@ -257,6 +257,7 @@ fn full_size_case(seed: u64, index: usize) -> VolumeCase {
 }
 
 pub fn run(ctx: &Ctx, rep: &mut Report) {
+    rep.journal_cases = true;
     rep.trust("independent encoder for the whole pipeline: volume header, LDM records (bzip2 via libbz2), message frames and type-31 layout; the generated spec is the independent record of what was encoded");
     rep.trust("reference model: maximal runs of equal elevation number; per-radial closed forms from C07");
     rep.assume("the message stream is split into records only at message boundaries (each record is decoded on its own by the code; the format has no other splits)");
